@@ -19,7 +19,7 @@ import (
 )
 
 func init() {
-	core.Register(core.Check{ID: "C15", Level: "exploration", Run: func(c *core.Ctx) { runC15(c); reentrancyPass(c, "C15") }})
+	core.Register(core.Check{ID: "C15", Level: "exploration", Run: func(c *core.Ctx) { runC15(c); historyPass(c, "C15"); reentrancyPass(c, "C15") }})
 }
 
 type c15leaf struct {
@@ -131,6 +131,12 @@ func c15Leaves(n int, kind int) [][]byte {
 			out[i] = []byte{0x42}
 		case 2: // empty
 			out[i] = []byte{}
+		case 4: // 32-byte identifiers (as large as a digest)
+			b := make([]byte, 32)
+			for k := range b {
+				b[k] = byte(i*31 + k*7 + 1)
+			}
+			out[i] = b
 		default: // varying length, including lengths that look like two concatenated digests
 			l := (i*7 + 3) % 70
 			b := make([]byte, l)
